@@ -153,7 +153,12 @@ func (f freshSpec) name() string {
 			var ns []string
 			for _, n := range p.names {
 				if n.uri != "" {
-					ns = append(ns, "uri")
+					// the location itself is part of the shape's identity (the pool of CRLs is keyed by this name)
+					tag := map[string]string{urlD1: "d1", urlD2: "d2", urlD3: "d3", urlDS: "https", urlLdap: "ldap", urlUpper: "HTTP-upper", urlBad: "bad-escape"}[n.uri]
+					if tag == "" {
+						tag = n.uri
+					}
+					ns = append(ns, "uri:"+tag)
 				} else {
 					ns = append(ns, fmt.Sprintf("other%02x", n.other))
 				}
@@ -209,6 +214,11 @@ func freshShapes() []freshSpec {
 		points(full(uri(urlDS), uri(urlD2))),
 		points(full(uri(urlLdap)), full(uri(urlD1))),
 		points(full(uri(urlDS))),
+		points(full(uri(urlLdap))),
+		points(full(uri(urlLdap), uri(urlDS))),
+		points(full(uri(urlLdap)), full(uri(urlDS)), full(uri("ftp://crl.example/d.crl"))),
+		points(full(uri(urlBad))),
+		points(full(uri(""))),
 		points(full(uri(urlUpper))),
 		points(full(uri(urlBad), uri(urlD1))),
 		points(dpSpec{kind: "fullName", names: []gnameSpec{uri(urlD1)}, reasons: true}),
